@@ -16,7 +16,7 @@ import numpy as np
 import antgen, filllib, farlib
 
 LEVEL = 'proof'
-MODULES = ['C05']
+MODULES = ['C05', 'C05b']
 
 
 def rotmat(rx, ry, rz):
@@ -52,6 +52,27 @@ def gen_motion(rng, ground):
         t = np.array([rng.uniform(-100, 100) for _ in range(3)])
     s = rng.choice([1.0, 1.0, 10 ** rng.uniform(-2, 2)])
     return R, t, s
+
+
+def scaling_tie(ant, src_seed, R, t, s):
+    """hypotheses and conclusion of C05_scale on the implementation: the scaled antenna has lengths, radii
+    and small-radius limit times s, wave number and exact-kernel constant divided by s, Z and rhs divided by s"""
+    m0 = solve(ant, src_seed)
+    m1 = solve(moved(ant, R, t, s), src_seed)
+    if len(m0.pulses) != len(m1.pulses):
+        return None
+    for name, a, b, tol in (('segment lengths', m1.pulses.seg_len, m0.pulses.seg_len * s, 1e-9),
+                            ('radii', m1.pulses.radius, m0.pulses.radius * s, 1e-9),
+                            ('exact-kernel constants', m1.pulses.i6 * s, m0.pulses.i6, 1e-9),
+                            ('wave number', np.array([m1.w * s]), np.array([m0.w]), 1e-12),
+                            ('small-radius limit', np.array([m1.srm]), np.array([m0.srm * s]), 1e-12),
+                            ('right-hand side', m1.rhs * s, m0.rhs, 1e-9),
+                            ('matrix', m1.Z * s, m0.Z, 2e-5)):
+        sc = float(np.max(np.abs(b))) or 1.0
+        dv = float(np.max(np.abs(np.array(a) - np.array(b)))) / sc
+        if dv > tol:
+            return '%s of the scaled antenna off by %.3g (relative)' % (name, dv)
+    return None
 
 
 def property_on_impl(ant, src_seed, R, t, s):
@@ -176,6 +197,11 @@ def run(ck):
         bad = property_on_impl(ant, ss, R, t, s)
         if bad:
             viol.append(dict(kind='motion', ant=ant, src_seed=ss, R=R.tolist(), t=t.tolist(), s=s, observed=bad))
+        elif s != 1.0:
+            st = scaling_tie(ant, ss, R, t, s)
+            ck.count('scaling_tie_cases')
+            if st:
+                dis.append(dict(ant=mv, why=st))
     for ant in diagonal_cases(rng):
         for R in (R90, R90 @ R90, rotmat(0, 0, 45.0)):
             ss = rng.randrange(10 ** 9)
